@@ -150,7 +150,7 @@ func c20SPMVocab(c c20Case) *Vocabulary {
 		}
 		b.add(s, TOKEN_TYPE_NORMAL, score)
 	}
-	text := c.text()
+	text := c.vocabText()
 	words := c20SPMWords(text + "\n" + strings.Join(c.Train, ""))
 	if c.NMerges > 0 {
 		for i, m := range c20Train(words, c.NMerges) {
@@ -213,6 +213,7 @@ func c20GenSPM(t *rapid.T) c20Case {
 			Score: rapid.SampledFrom([]int{-7, -7, 0, 1, -1, -50, -300, 5}).Draw(t, "spanscore"),
 		})
 	}
+	c.Long = c20MaybeLong(t, c20SPMSpecials)
 	return c
 }
 
